@@ -55,6 +55,10 @@ ExactlyVisibleOnce(cfg, cont) ==
    /\ \A a \in 1..NArgs(cfg) : Cardinality({k \in 1..Len(L) : EntryIsOf(cfg, cont, L[k], a)}) = (IF Visible(cfg, cont, cfg.args[a]) THEN 1 ELSE 0)
    /\ \A k \in 1..Len(L), a \in 1..NArgs(cfg) : EntryIsOf(cfg, cont, L[k], a) => L[k].cap = (IF cfg.args[a].mand THEN "m" ELSE "o")
 
+\* layout of the usage (property C17 applied to the usage text, which is written through TextBlock behind the key column): no line
+\* is longer than the line length in force unless it holds a single word (a key of its own line, a word that cannot fit)
+LayoutOK(width, lens, nwords) == Len(lens) = Len(nwords) /\ \A i \in 1..Len(lens) : lens[i] <= width \/ nwords[i] <= 1
+
 \* help for one argument: typed key text (short character, complete long key or - when the handler accepts
 \* abbreviations - an unambiguous beginning of a long key) -> argument index, 0 (unknown) or -1 (ambiguous: open)
 HelpArgOf(cfg, key) == IF Len(key) = 1 THEN LookupShort(cfg, key[1]) ELSE LookupLong(cfg, key)
